@@ -330,7 +330,10 @@ def r04_7(ctx):
     b = ctx.method(SOCK, 'may_recv')
     falses = [bi for bi, bl in enumerate(b.blocks) if not bl['cl'] for s in bl['s']
               if s[0] == 'a' and s[1] == [0, []] and s[2][0] == 'use' and s[2][1][0] == 'k' and s[2][1][2] is False]
-    ctx.need(falses, "`false` result in tcp::Socket::may_recv")
+    # `.. || self.can_recv()`: the answer IS can_recv() on that path, false exactly when the buffer is empty
+    direct = [bi for bi, bl in enumerate(b.blocks) if not bl['cl'] and bl['t'][0] == 'call' and bl['t'][3] == [0, []]
+              and is_call(strip(F.origin.call_node(b, bl['t'], bi, 0, None)), 'can_recv')]
+    ctx.need(falses or direct, "`false` result in tcp::Socket::may_recv")
     empty = lambda f: f[0] == 'bool' and f[2] is False and is_call(strip(f[1]), 'can_recv')
     bad = unguarded(F, b, falses, empty)
     if bad:
@@ -428,7 +431,9 @@ def r18_8(ctx):
     F = ctx.F
     D = 'socket::dhcpv4::Socket'
     DR = 'wire::dhcpv4::Repr'
-    b = ctx.method(D, 'parse_ack')
+    b, actual = dhcp_t12_body(F, ctx.method(D, 'parse_ack'))
+    # the lease duration inside a helper is the parameter it was passed as
+    lease_l = {f"F:{DR}.lease_duration"} | {f"A:{k}" for k, o in actual.items() if f"F:{DR}.lease_duration" in leafs(o)}
     # sites: tuples (renew, rebind) built directly from both option values
     sites = []
     for bi, bl in enumerate(b.blocks):
@@ -449,7 +454,9 @@ def r18_8(ctx):
             if f[0] != 'rel' or f[1] not in ('Lt',):
                 return False
             x, y = leafs(f[2]), leafs(f[3])
-            return f"F:{DR}.{fa}" in x and f"F:{DR}.{fb}" not in x and f"F:{DR}.{fb}" in y and f"F:{DR}.{fa}" not in y
+            la = lease_l if fa == 'lease_duration' else {f"F:{DR}.{fa}"}
+            lb = lease_l if fb == 'lease_duration' else {f"F:{DR}.{fb}"}
+            return bool(la & x) and not (lb & x) and bool(lb & y) and not (la & y)
         return p
     for s_ in sites:
         b1 = unguarded(F, b, [s_], lt('renew_duration', 'rebind_duration'))
@@ -484,27 +491,46 @@ def r17_7(ctx):
     F = ctx.F
     R = 'wire::tcp::Repr'
     CT = 'wire::tcp::Control'
-    b = ctx.method(R, 'parse')
+    parse = ctx.method(R, 'parse')
     need = {'Syn': ('fin', 'rst'), 'Fin': ('syn', 'rst'), 'Rst': ('syn', 'fin'), 'None': ('syn', 'fin', 'rst'), 'Psh': ('syn', 'fin', 'rst')}
-    sites = {}
-    for bi, bl in enumerate(b.blocks):
-        if bl['cl']:
-            continue
-        for si, s in enumerate(bl['s']):
-            if s[0] == 'a' and s[2][0] in ('use', 'agg'):
-                o = strip(simplify(F.origin.rvalue(b, s[2], bi, si, 0, None)))
-                if o[0] == 'variant' and o[1].startswith(CT + '::') and b.locals[s[1][0]]['ty'].endswith('Control') and s[1][1] == []:
-                    sites.setdefault(o[1].rsplit('::', 1)[-1], []).append(bi)
-    ctx.need(len(sites) >= 4, f"control classification in tcp::Repr::parse (found {sorted(sites)})")
-    for var, blocks in sorted(sites.items()):
-        for flag in need.get(var, ()):
-            clear = lambda f, flag=flag: f[0] == 'bool' and f[2] is False and is_call(strip(f[1]), '::' + flag) and strip(f[1])[1].startswith('wire::tcp::Packet')
-            bad = unguarded(F, b, blocks, clear)
-            if bad:
-                ctx.bad(f"tcp::Repr::parse|control|{var}|{flag}", f"a segment with the {flag.upper()} flag set can be classified as Control::{var}: contradictory flag combinations "
-                        "(e.g. SYN+RST) are handed to the socket as an ordinary segment and advance its state", body=b, bb=bad[0][0], path=bad[0][1])
-            else:
-                ctx.ok(('control', var, flag), sample=dict(control=var, requires=f"!{flag}()"))
+    # the classification may sit in parse itself or in a helper of wire::tcp that parse calls and that hands back a Control
+    cands = [parse]
+    for bi, c, args, dest, tgt, ln in parse.calls():
+        cb = F.bodies.get(parse.callee_name(c))
+        if cb is not None and cb.key.startswith('wire::tcp::') and 'Control' in cb.locals[0]['ty'] and cb not in cands:
+            cands.append(cb)
+
+    def ctl(o):
+        o = strip(o)
+        if o[0] == 'variant' and o[1].startswith(CT + '::'):
+            return o[1].rsplit('::', 1)[-1]
+        if o[0] == 'variant' and o[1].endswith('Result::Ok') and len(o) > 2 and o[2]:
+            return ctl(o[2][0])
+        return None
+    found = []
+    for b in cands:
+        sites = {}
+        for bi, bl in enumerate(b.blocks):
+            if bl['cl']:
+                continue
+            for si, s in enumerate(bl['s']):
+                if s[0] == 'a' and s[2][0] in ('use', 'agg') and s[1][1] == [] and 'Control' in b.locals[s[1][0]]['ty']:
+                    v = ctl(simplify(F.origin.rvalue(b, s[2], bi, si, 0, None)))
+                    if v:
+                        sites.setdefault(v, []).append(bi)
+        if len(sites) >= 4:
+            found.append((b, sites))
+    ctx.need(found, f"control classification in tcp::Repr::parse or a helper it calls")
+    for b, sites in found:
+        for var, blocks in sorted(sites.items()):
+            for flag in need.get(var, ()):
+                clear = lambda f, flag=flag: f[0] == 'bool' and f[2] is False and is_call(strip(f[1]), '::' + flag) and strip(f[1])[1].startswith('wire::tcp::Packet')
+                bad = unguarded(F, b, blocks, clear)
+                if bad:
+                    ctx.bad(f"tcp::Repr::parse|control|{var}|{flag}", f"a segment with the {flag.upper()} flag set can be classified as Control::{var}: contradictory flag combinations "
+                            "(e.g. SYN+RST) are handed to the socket as an ordinary segment and advance its state", body=b, bb=bad[0][0], path=bad[0][1])
+                else:
+                    ctx.ok(('control', var, flag), sample=dict(control=var, requires=f"!{flag}()"))
 
 
 @rule('R03.9', ['C03', 'C07'], floor=3, clause='an IEEE 802.15.4 frame view is handed out checked only with a known frame version and known addressing modes: the 6LoWPAN fragment key unwraps src_addr()/dst_addr(), which are None for the unknown encodings')
@@ -2098,6 +2124,37 @@ def r10_6(ctx):
     notbc = lambda g: g[0] == 'bool' and g[2] is False and (is_call(strip(g[1]), '::is_broadcast') or is_call(strip(g[1]), '::is_broadcast_v4'))
     # the fall-back: any test of the bound endpoint address / call of the interface's source selection
     fallback = lambda g: g[0] in ('is', 'isnot') and any(l.endswith('.addr') and 'UdpMetadata' not in l and 'local_address' not in l for l in leafs(g[1]))
+    from ..core import _holds_via_closure
+    from ..wirelib import subst
+
+    def safe(n, pred, depth=0):
+        """Option-combinator form of the selection: is every Some(..) this expression can yield either filtered by a closure
+        that implies pred, or the interface's own source selection?"""
+        n = strip(n)
+        if depth > 6:
+            return False
+        if n[0] == 'phi':
+            return all(safe(a, pred, depth + 1) for a in n[1])
+        if n[0] == 'variant' and n[1].endswith('Option::None'):
+            return True
+        if n[0] != 'call':
+            return False
+        last = n[1].rsplit('::', 1)[-1]
+        if last == 'get_source_address':
+            return True
+        if 'Option' in n[1] and last == 'filter' and len(n[2]) == 2:
+            return _holds_via_closure(F, ('is', n, 'Some', 'std::option::Option'), pred)
+        if 'Option' in n[1] and last == 'or' and len(n[2]) == 2:
+            return safe(n[2][0], pred, depth + 1) and safe(n[2][1], pred, depth + 1)
+        if 'Option' in n[1] and last == 'or_else' and len(n[2]) == 2:
+            clo = strip(n[2][1])
+            if clo[0] != 'agg' or not str(clo[1]).startswith('closure:'):
+                return False
+            cb = F.bodies.get(clo[1][len('closure:'):])
+            if cb is None or len(cb.blocks) > 40:
+                return False
+            return safe(n[2][0], pred, depth + 1) and safe(simplify(subst(ret_origin(F, cb), {1: clo})), pred, depth + 1)
+        return False
     for b in fam:
         news = [x[0] for x in b.calls() if (b.callee_name(x[1]) or '').endswith('ip::Repr::new')]
         if not news:
@@ -2110,6 +2167,10 @@ def r10_6(ctx):
                 if not (f[0] == 'is' and f[2] == 'Some' and any(l.endswith('UdpMetadata.local_address') for l in leafs(f[1]))):
                     continue
                 n += 1
+                if safe(f[1], uni) and safe(f[1], notbc):
+                    m += 1          # the chain covers the bound address as well
+                    ctx.ok(('udp::dispatch', 'metadata source is unicast'), sample=dict(fn='udp::Socket::dispatch', uses_local_address='Option chain: filter(usable).or_else(..)'))
+                    continue
                 unis = set(guard_edges(F, b, uni)) & set(guard_edges(F, b, notbc))
                 cut = unis | set(guard_edges(F, b, fallback))
                 seen = b.reachable(start=tb, cut_edges=cut, cut_blocks=gsa)
@@ -2124,6 +2185,9 @@ def r10_6(ctx):
                 if not (f[0] == 'is' and f[2] == 'Some' and any(l.endswith('.addr') and 'UdpMetadata' not in l and 'local_address' not in l and 'ListenEndpoint' in l for l in leafs(f[1]))):
                     continue
                 m += 1
+                if safe(f[1], uni) and safe(f[1], notbc):
+                    ctx.ok(('udp::dispatch', 'bound source is unicast'), sample=dict(fn='udp::Socket::dispatch', uses_bound_address='Option chain: filter(usable)'))
+                    continue
                 unis = set(guard_edges(F, b, uni)) & set(guard_edges(F, b, notbc))
                 seen = b.reachable(start=tb, cut_edges=unis, cut_blocks=gsa)
                 if (bi, tb, lab) not in unis and any(s_ in seen for s_ in news):
@@ -2811,8 +2875,9 @@ def _in_cone(goal, gens):
 def r18_11(ctx):
     F = ctx.F
     D = 'socket::dhcpv4::Socket'
-    b = ctx.method(D, 'parse_ack')
-    r = simplify(ret_origin(F, b))
+    pa = ctx.method(D, 'parse_ack')
+    b, actual = dhcp_t12_body(F, pa)
+    r = simplify(ret_origin(F, pa))
     tup = None
     for a in alts(r):
         if a[0] == 'agg' and a[1].endswith('Option::Some') and a[2] and strip(a[2][0])[0] == 'agg':
@@ -2823,6 +2888,11 @@ def r18_11(ctx):
     lease = [k for k in exp[1][0] if not (isinstance(k, tuple) and k[0] == 'arg')]
     ctx.need(len(lease) == 1, "the lease term of expires_at")
     L = {lease[0]: 1}
+    if actual:
+        # the choice is made in a helper: there the lease is the parameter it was passed as
+        ks = [k for k, o in actual.items() if strip(o) == lease[0]]
+        ctx.need(len(ks) == 1, "the lease duration among the arguments of the (T1, T2) helper")
+        L = {('arg', ks[0]): 1}
     # hypotheses per switch edge
     hyps = []
     for bi, bl in enumerate(b.blocks):
@@ -3245,6 +3315,13 @@ def r09_10(ctx):
             cs = _calls_in(rcv)
             if rcv[0] == 'call' and (rcv[1].endswith('InterfaceInner::route') or 'get_source_address' in rcv[1]) and not any('neighbor::Cache' in c[1] for c in cs):
                 okc = True
+        if not okc:
+            # `let Some(x) = self.route(..) else { return Err(NoRoute) }`: the answer is built behind `route(..) is None`
+            lookup_failed = lambda f: ((f[0] == 'is' and f[2] == 'None') or (f[0] == 'isnot' and 'Some' in f[2])) and strip(f[1])[0] == 'call' and \
+                (strip(f[1])[1].endswith('InterfaceInner::route') or 'get_source_address' in strip(f[1])[1])
+            if guard_edges(F, b, lookup_failed) and not unguarded(F, b, [bi], lookup_failed):
+                okc = True
+                rcv = ('const', '"route(..) / get_source_address(..) is None"')
         if okc:
             ctx.ok(('lookup_hardware_addr', 'NoRoute', bi), sample=dict(no_route_from=show(rcv)[:60]))
         else:
@@ -3411,7 +3488,7 @@ def r15_10(ctx):
         ctx.ok(('add_then_remove_front', 'no refusal of its own'), sample=dict(fn='Assembler::add_then_remove_front', err_only_from='add(..)?'))
 
 
-@rule('R19.7', ['C19', 'C03'], floor=2, clause='the DNS socket indexes its server list with a query\'s server index only behind `server_idx < servers.len()`: when the last server has timed out the query fails instead of reading past the list')
+@rule('R19.7', ['C19', 'C03'], floor=1, clause='the DNS socket indexes its server list with a query\'s server index only behind `server_idx < servers.len()`: when the last server has timed out the query fails instead of reading past the list')
 def r19_7(ctx):
     F = ctx.F
     b = ctx.method('socket::dns::Socket', 'dispatch')
@@ -3423,7 +3500,12 @@ def r19_7(ctx):
         ix = strip(simplify(F.origin.operand(b, t[3]['index'], bi, len(bl['s']))))
         if any(l.endswith('.server_idx') for l in leafs(ix)):
             sites.append(bi)
-    ctx.need(len(sites) >= 2, f"servers[pq.server_idx] in dns dispatch (found {len(sites)})")
+    # a checked lookup servers.get(pq.server_idx) needs no guard
+    checked = [x[0] for x in b.calls() if re.search(r'(slice|\[T\]|Vec<.*>)::.*\bget$|<\[T\]>::get$', b.callee_name(x[1]) or '') and len(x[2]) == 2
+               and any(l.endswith('.server_idx') for l in leafs(simplify(F.origin.operand(b, x[2][1], x[0], len(b.blocks[x[0]]['s'])))))]
+    ctx.need(len(sites) + len(checked) >= 1, f"servers[pq.server_idx] or servers.get(pq.server_idx) in dns dispatch (found {len(sites)})")
+    for s_ in checked:
+        ctx.ok(('dns::dispatch', 'server lookup', s_), sample=dict(index='servers.get(pq.server_idx)', behind='checked lookup'))
 
     def inb(f):
         if f[0] != 'rel' or f[1] != 'Lt':
@@ -3776,7 +3858,18 @@ def _check_shift(ctx, b, bb, o):
             return all(clamped(a) for a in x[1])
         if x[0] == 'call' and x[1].rsplit('::', 1)[-1] == 'min' and len(x[2]) == 2:
             return any((const_of(strip(a)) is not None and const_of(strip(a)) <= 14) for a in x[2]) or any(clamped(a) for a in x[2])
+        if x[0] == 'call' and x[1] in ctx.F.bodies and depth[0] < 3:
+            # the computation extracted into a private helper
+            from ..wirelib import inline_call
+            inl = inline_call(ctx.F, x)
+            if inl is not None:
+                depth[0] += 1
+                try:
+                    return clamped(simplify(inl))
+                finally:
+                    depth[0] -= 1
         return False
+    depth = [0]
     short = b.key.rsplit('::', 1)[-1]
     if clamped(o):
         ctx.ok((short, 'shift <= 14', bb), sample=dict(fn=short, stores=show(o)[:60]))
